@@ -430,6 +430,86 @@ func init() {
 		}
 	})
 
+	// c02.wsseq: acceptance must not depend on what the same process decoded before.  Every case is a pair
+	// (prev, doc) run back to back into the same destination type: documents with runs of >= 2 blanks at varied
+	// offsets inside and across 64-byte windows - well-formed ones and ones with junk inside the run - each
+	// after a well-formed `prev` of the same shape whose blank run is longer, shorter, or filled with token bytes.
+	registerGen("c02.wsseq", func(g *Gen) {
+		type tpl struct{ pre, post string }
+		tpls := []tpl{{"[1,", "2]"}, {"{\"a\":", "1}"}, {"[", "1,2]"}, {"{", "\"a\":1}"}, {"[1", ",2]"}, {"[1,2", "]"},
+			{"{\"a\":1", ",\"b\":[2]}"}, {"{\"a\":[1,", "2],\"b\":\"x\"}"}}
+		blank := func(n, salt int) string {
+			b := make([]byte, n)
+			for i := range b {
+				b[i] = " \n\t\r"[((i+salt)*7+salt)%4]
+				if salt%3 == 0 {
+					b[i] = ' '
+				}
+			}
+			return string(b)
+		}
+		pads := []int{0, 1, 7, 29, 52, 60, 63, 64, 90}
+		lens := []int{2, 3, 5, 8, 9, 17, 40}
+		if g.Tier == "thorough" {
+			pads = append(pads, 2, 13, 31, 32, 47, 58, 61, 62, 65, 127, 128, 200)
+			lens = append(lens, 4, 6, 7, 12, 31, 63, 64, 70)
+		}
+		junk := []byte{'!', 'x', '3', '"', ',', ']', 0x80, 0}
+		n := 0
+		for ti, t := range tpls {
+			for _, pad := range pads {
+				lead := strings.Repeat(" ", pad)
+				if pad == 1 {
+					lead = "\n"
+				}
+				for li, L := range lens {
+					run := blank(L, ti+li+pad)
+					doc := lead + t.pre + run + t.post
+					// what came before: the same shape with a longer run, a shorter run, and with token bytes where
+					// this document has blanks (a number / string of the same length)
+					fill := strings.Repeat("7", L)
+					if strings.HasSuffix(t.pre, ":") || strings.HasSuffix(t.pre, ",") || strings.HasSuffix(t.pre, "[") {
+						fill = "  " + strings.Repeat("7", L-2+1)
+					}
+					prevs := []string{
+						lead + t.pre + blank(L+6, ti) + t.post,
+						lead + t.pre + blank(2, ti+1) + t.post,
+						lead + t.pre + " " + t.post,
+						lead + strings.Replace(t.pre+"@"+t.post, "@", "  ", 1),
+					}
+					if strings.HasSuffix(t.pre, ",") || strings.HasSuffix(t.pre, ":") {
+						prevs = append(prevs, lead+t.pre+fill+t.post) // `[1,  777772]`: tokens where doc has blanks
+					}
+					variants := []string{doc}
+					for ji := 0; ji < 3; ji++ {
+						j := junk[(n+ji*3+ti)%len(junk)]
+						b := []byte(doc)
+						// junk inside the run: never on its first byte (that one every scanner tests by hand)
+						off := pad + len(t.pre) + 1 + ((ji*5 + li) % (L - 1))
+						if ji == 2 {
+							// from some point to the end of the run
+							for k := off; k < pad+len(t.pre)+L; k++ {
+								b[k] = j
+							}
+						} else {
+							b[off] = j
+						}
+						variants = append(variants, string(b))
+					}
+					for vi, v := range variants {
+						for pi, pv := range prevs {
+							if g.Tier != "thorough" && vi > 0 && (pi+vi+li)%2 == 1 {
+								continue
+							}
+							g.Emit("valid", "typed", hexArg([]byte(v)), "t:wsseq", "prev="+hexArg([]byte(pv)))
+							n++
+						}
+					}
+				}
+			}
+		}
+	})
+
 	registerGen("c02.deep", func(g *Gen) {
 		c := &c02Gen{g}
 		rep := strings.Repeat
